@@ -234,3 +234,37 @@ Theorem filter_ids_is_source_partial : forall keep invert a t inplace, NoDup (oi
   end.
 Proof. exact gen_filter_ids_is_source_partial. Qed.
 Print Assumptions filter_ids_is_source_partial.
+Theorem filter_pred_is_source_partial : forall verdicts invert a t inplace, NoDup (oids t) -> NoDup (sids t) ->
+  gen_filter (lift t) (KFun verdicts) (name_of a) invert inplace =
+  ROk (if inplace then lift (filter_pred verdicts invert a t) else lift t, lift (filter_pred verdicts invert a t)).
+Proof. exact gen_filter_pred_is_source_partial. Qed.
+Print Assumptions filter_pred_is_source_partial.
+Theorem filter_other_refused_is_source : forall a t invert inplace,
+  gen_filter (lift t) KOther (name_of a) invert inplace = RErr E_TYPE.
+Proof. exact gen_filter_other_refused. Qed.
+Print Assumptions filter_other_refused_is_source.
+Theorem filter_bad_axis_refused_is_source : forall n o k invert inplace, n = N_whole \/ n = N_other ->
+  gen_filter o k n invert inplace = RErr E_UNKNOWN.
+Proof. exact gen_filter_bad_axis_refused. Qed.
+Print Assumptions filter_bad_axis_refused_is_source.
+Theorem remove_empty_axis_is_source_partial : forall a t inplace, wf t ->
+  gen_remove_empty (lift t) (name_of a) inplace =
+  ROk (if inplace then lift (remove_empty_axis a t) else lift t, lift (remove_empty_axis a t)).
+Proof. exact gen_remove_empty_axis_is_source_partial. Qed.
+Print Assumptions remove_empty_axis_is_source_partial.
+Theorem remove_empty_whole_is_source_partial : forall t inplace, wf t ->
+  gen_remove_empty (lift t) N_whole inplace =
+  ROk (if inplace then lift (remove_empty_whole t) else lift t, lift (remove_empty_whole t)).
+Proof. exact gen_remove_empty_whole_is_source_partial. Qed.
+Print Assumptions remove_empty_whole_is_source_partial.
+Theorem remove_empty_bad_axis_refused_is_source : forall o inplace, gen_remove_empty o N_other inplace = RErr E_UNKNOWN.
+Proof. exact gen_remove_empty_bad_axis_refused. Qed.
+Print Assumptions remove_empty_bad_axis_refused_is_source.
+Theorem head_is_source_partial : forall n m t, wf t ->
+  gen_head (lift t) n m = match head n m t with ROk t' => ROk (lift t, lift t') | RErr c => RErr c end.
+Proof. exact gen_head_is_source_partial. Qed.
+Print Assumptions head_is_source_partial.
+(* the hypothesis wf of the partial bridges is satisfiable, and the regenerated text computes *)
+Example partial_bridges_satisfiable : wf bridge_ex.
+Proof. exact bridge_ex_wf. Qed.
+Print Assumptions partial_bridges_satisfiable.
